@@ -57,6 +57,29 @@ Definition narrow_read (t : ty) (v : Z) : Z :=
 Definition looks_like_pointer (v : Z) : bool :=
   let u := v mod 2 ^ 64 in (4294967296 <=? u) && (u <=? 140737488355327).
 
+(* ------------------------------------------------------------------ Mech: the typed store entry point *)
+(* the type the caller hands to VariableManager::assign_variable as [type_hint]: TYPE_UNKNOWN, a primitive type
+   (for `x = c ? a : b;` the type core/type_inference.cpp infers for the selected branch: int for a literal, the declared
+   type for a variable, the result type for a call, bool for a comparison / ! / an arithmetic operator on two such), TYPE_POINTER *)
+Inductive hint := HNone | HTy (b : ity) | HPointer.
+
+Definition bool_norm (v : Z) : Z := if v =? 0 then 0 else 1.
+
+(* VariableManager::assign_variable(name, typed_value, type_hint, is_const), managers/variables/manager.cpp:961,
+   apply_assignment on an existing variable declared [t], numeric value:
+     resolved_type := type_hint, or target.type when the hint is TYPE_UNKNOWN          (manager.cpp:1307)
+     resolved_type == TYPE_BOOL : the value is normalised to 0 / 1                     (manager.cpp:1392)
+     clamp_unsigned: a negative becomes 0 when target.is_unsigned                      (manager.cpp:1395)
+     range_check_type := target.type - NOT resolved_type - when the target has a primitive type (manager.cpp:1401)
+     a TYPE_POINTER hint or value is stored without the check                          (manager.cpp:1410) *)
+Definition resolved_type (h : hint) (t : ty) : ity := match h with HTy b => b | _ => base t end.
+Definition mech_assign_variable (h : hint) (t : ty) (v : Z) : ctl Z :=
+  let v1 := match resolved_type h t with TBool => bool_norm v | _ => v end in
+  let v2 := mech_clamp (uns t) v1 in
+  match h with HPointer => Val v2 | _ => mech_check t v2 end.
+
+Definition signed_of (t : ty) : ty := {| base := base t; uns := false |}.
+
 (* ------------------------------------------------------------------ Mech: the store paths *)
 Inductive path :=
 | PDecl            (* T x = e;            declaration.cpp process_variable_declaration: clamp, check_type_range *)
@@ -75,7 +98,25 @@ Inductive path :=
 | PLit1            (* T[n] a = [..];      ArrayManager (arrays/manager.cpp), 1-D literal loop of the array declaration (fix 11769f3): clamp, check; read narrows *)
 | PLitN            (* T[n][m] a = [[..]]; ArrayManager::processArrayLiteralRecursive (fix 11769f3): clamp, check *)
 | PGlobalArr       (* global T[n] a=[..]; CommonOperations::assign_array_literal_to_variable, and a global array has lost is_unsigned: no clamp, no check *)
-| PAssignFromElemN (* x = m[i][j];        the value passes consume_numeric_typed_value: pointer-looking values skip the check *).
+| PAssignFromElemN (* x = m[i][j];        the value passes consume_numeric_typed_value: pointer-looking values skip the check *)
+(* --- the store paths added when the ternary-assignment blind spot was closed (every caller of assign_variable with a
+       type hint and the other store entry points of managers/variables/*.cpp, executors/declarations, executors/assignments) *)
+| PAssignHint (h : hint) (* x = c ? a : b;  statement_executor.cpp execute_ternary_assignment: assign_variable(name, value of the selected
+                            branch, typed_value.type.type_info) - the hint is the INFERRED type of the branch, not the type of x *)
+| PAssignCall      (* x = f(..);          simple_assignment.cpp:1166 (own branch for AST_FUNC_CALL): assign_variable, hint TYPE_UNKNOWN *)
+| PDeclCall        (* T x = f(..);        declaration.cpp:1852 (own branch for AST_FUNC_CALL): clamp_unsigned_value, then the check at 2077 *)
+| PDeclTypedef     (* typedef T A; A x=e; declaration.cpp:716-743 (typedef branch): clamp_unsigned_value, check_type_range *)
+| PDeclTypedefTernary (* A x = c ? a : b; declaration.cpp:513 (typedef branch, ternary): var.value = ternary_result.value - no clamp, no check *)
+| PDeclMulti (h : hint) (* T a = e, b = e;   variable_declaration.cpp execute_variable_declaration (only reached from execute_multiple_var_decl):
+                            assign_variable(name, typed value, node->type_info); a ?: initialiser goes through
+                            execute_ternary_variable_initialization: assign_variable(name, value, inferred type of the branch) *)
+| PConstGlobal     (* const T g = c;      interpreter.cpp:507 after declare_global_variable: assign_variable, hint TYPE_UNKNOWN *)
+| PStaticAssign    (* s = e; s op= e; s++ on a static: the static copy has lost is_unsigned (static.cpp create_static_variable) - no clamp,
+                      range of the SIGNED type *)
+| PElem1Global     (* g[i] = e; global array: is_unsigned lost - no clamp, range of the signed type; read narrows *)
+| PArrLitAssign1   (* a = [..];  1-D      CommonOperations::assign_array_literal_to_variable (operations.cpp:68): clamp only; read narrows *)
+| PArrLitAssignN   (* m = [[..]..];       same function, nested literal: clamp only *)
+| PArrCopy         (* a = b; T[n] a = f(); array parameter: the Variable is replaced wholesale (element type included): nothing *).
 
 (* the value a later read of the cell yields (what the property speaks about), or the error *)
 Definition mech_store (p : path) (t : ty) (v : Z) : ctl Z :=
@@ -86,6 +127,14 @@ Definition mech_store (p : path) (t : ty) (v : Z) : ctl Z :=
       match clamp_check t v with Val w => Val (narrow_read t w) | other => other end
   | PGlobalArr => Val (narrow_read t v)
   | PAssignFromElemN | PReturnElemN => if looks_like_pointer v then Val (mech_clamp (uns t) v) else clamp_check t v
+  | PAssignHint h | PDeclMulti h => mech_assign_variable h t v
+  | PAssignCall | PConstGlobal => mech_assign_variable HNone t v
+  | PDeclCall | PDeclTypedef => clamp_check t v
+  | PDeclTypedefTernary | PArrCopy => Val v
+  | PStaticAssign => mech_check (signed_of t) v
+  | PElem1Global => match mech_check (signed_of t) v with Val w => Val (narrow_read t w) | other => other end
+  | PArrLitAssign1 => Val (narrow_read t (mech_clamp (uns t) v))
+  | PArrLitAssignN => Val (mech_clamp (uns t) v)
   end.
 
 (* a[i] op= d computes from the narrowed old value (the element is read as an expression);
@@ -96,11 +145,16 @@ Definition mech_elem1_update (p : path) (t : ty) (old delta : Z) : ctl Z :=
   | _ => mech_store p t (narrow_read t old + delta)
   end.
 
-Definition checked_paths : list path := [PDecl; PAssign; PCompound; PArg; PGlobalScalar; PIncDecVar; PReturn; PElemN; PLitN].
+Definition checked_paths : list path := [PDecl; PAssign; PCompound; PArg; PGlobalScalar; PIncDecVar; PReturn; PElemN; PLitN;
+                                         PDeclCall; PDeclTypedef].
+(* the callers of assign_variable: as demanded whenever the resolved type is not bool and the hint is not TYPE_POINTER *)
+Definition hinted_paths (h : hint) : list path := [PAssignHint h; PDeclMulti h].
+Definition unhinted_paths : list path := [PAssignCall; PConstGlobal].
 (* 1-D element storage: as demanded up to the narrowing read *)
 Definition element_paths : list path := [PElem1; PElem1Compound; PIncDecElem1; PLit1].
 Definition unchecked_paths : list path :=
-  [PStatic; PElem1; PElem1Compound; PIncDecElem1; PLit1; PGlobalArr; PAssignFromElemN; PReturnElemN].
+  [PStatic; PElem1; PElem1Compound; PIncDecElem1; PLit1; PGlobalArr; PAssignFromElemN; PReturnElemN;
+   PAssignHint (HTy TBool); PDeclMulti (HTy TBool); PDeclTypedefTernary; PStaticAssign; PElem1Global; PArrLitAssign1; PArrLitAssignN; PArrCopy].
 
 (* the documented ranges (docs/spec.md "基本型"): n-bit two's complement / n-bit unsigned *)
 Definition bits_of (b : ity) : option Z :=
